@@ -270,7 +270,7 @@ package dataflow
 //@   ghost pk int
 //@   requires intraState != nil && intraState.flowInfo != nil && intraState.instrPrev != nil && function != nil
 //@   requires 0 <= bi && bi < len(function.Blocks) && Wb() != nil && 0 < len(Wb().Instrs) && 0 <= pk && pk < len(Wb().Preds) && Wp() != nil && 0 < len(Wp().Instrs)
-//@   requires forall b int, i int :: 0 <= b && b < len(function.Blocks) && 0 <= i && i < len(function.Blocks[b].Instrs) ==> has(intraState.flowInfo.InstrID, function.Blocks[b].Instrs[i])
+//@   requires forall b int, i int :: 0 <= b && b < len(function.Blocks) && 0 <= i && i < len(function.Blocks[b].Instrs) ==> function.Blocks[b].Instrs[i] != nil && has(intraState.flowInfo.InstrID, function.Blocks[b].Instrs[i])
 //@   requires forall b int, i int :: 0 <= b && b < len(function.Blocks) && 0 <= i && i < len(function.Blocks[b].Instrs) && (b != bi || i != 0) ==> intraState.flowInfo.InstrID[function.Blocks[b].Instrs[i]] != intraState.flowInfo.InstrID[Wf()]
 //@   loop block exit pred_edge_recorded: Wedge()
 //@   loop block invariant done_blocks: bi < iter(block) ==> Wedge()
